@@ -286,9 +286,107 @@ def r_probe(prog, R):
         r.viol("probe_pending set/cleared", p.name, p.loc(p.ln), "probe_pending bookkeeping broken (set=%s cleared=%s): servers are probed repeatedly or never again" % (okset, okclr))
 
 
+def r_probeflag(prog, R):
+    r = R.rule("R-C09-PROBEFLAG", "a server's probe_pending flag is cleared whenever the probing query ends: end_query is told the server of the attempt unless none was chosen", floor=4, analysis="argument provenance at every end_query call")
+    eq = prog.func("end_query")
+    clr = [el for _, _, el in eq.elements() if el["k"] == "asg" and is_field(el["e"]["l"], "probe_pending") and name_of_const(el["e"].get("r")) == "ARES_FALSE"]
+    if clr:
+        r.ok("end_query clears probe_pending", eq.loc(clr[0]))
+    else:
+        r.viol("end_query clears probe_pending", eq.name, eq.loc(eq.ln), "end_query no longer clears server->probe_pending")
+    n = 0
+    for f in sorted(prog.funcs.values(), key=lambda x: x.key):
+        mf = None
+        for b, i, c in f.calls_to("end_query"):
+            n += 1
+            a = strip(call_arg(c, 1))
+            k = "fn=%s end_query(server=%s)" % (f.name, render(a))
+            if a is not None and not is_null(a) and const_val(a) is None:
+                r.ok(k, f.loc(c["ln"]))
+                continue
+            # a literal NULL is fine only where no server was ever chosen for the query
+            if mf is None:
+                mf = MustFacts(f, track_calls=False)
+            nosrv = any(norm_cmp(c3, p3)[0] in ("==", "false") and is_var(strip(norm_cmp(c3, p3)[1]), "server") for c3, p3 in mf.cond_facts_at(b, i))
+            if nosrv:
+                r.ok(k + " (no server chosen)", f.loc(c["ln"]))
+            else:
+                r.viol(k, f.name, f.loc(c["ln"]), "%s ends a query without telling end_query which server the attempt was on: if the query was a probe of a failed server, probe_pending stays set and that server is never probed again" % f.name)
+    r.require(n >= 4, "fewer end_query call sites than confirmed by hand (%d)" % n)
+    # the flag never outlives a probe that could not be sent: the result of the send is tested and the flag lowered on failure
+    pf = prog.func("ares_probe_failed_server")
+    sets = [(b, i, el) for b, i, el in pf.elements() if el["k"] == "asg" and is_field(el["e"]["l"], "probe_pending") and name_of_const(el["e"].get("r")) == "ARES_TRUE"]
+    lowers = [(b, i, el) for b, i, el in pf.elements() if el["k"] == "asg" and is_field(el["e"]["l"], "probe_pending") and name_of_const(el["e"].get("r")) == "ARES_FALSE"]
+    gs = call_result_branches(pf, "ares_send_nolock")
+    okp = False
+    if sets and lowers and gs:
+        g = gs[0]
+        fail_edge = g["true"] if (g["op"] == "!=" and name_of_const(g["rhs"]) == "ARES_SUCCESS") else (g["false"] if (g["op"] == "==" and name_of_const(g["rhs"]) == "ARES_SUCCESS") else None)
+        okp = fail_edge is not None and lowers[0][0].id == fail_edge
+    if okp:
+        r.ok("probe_pending lowered when the probe could not be sent", pf.loc(lowers[0][2]))
+    else:
+        r.viol("probe_pending lowered when the probe could not be sent", pf.name, pf.loc(pf.ln), "ares_probe_failed_server raises probe_pending and does not lower it when ares_send_nolock fails: no query ever ends for that probe, so the server is never probed again")
+
+
+def r_position(prog, R):
+    r = R.rule("R-C09-POSITION", "configuration order is the tie-break: a new server gets the position it has in the list being applied, the same counter that renumbers kept servers; every failure re-arms the retry delay", floor=4, analysis="dataflow of the position counter + exact guard")
+    up = prog.func("ares_servers_update")
+    sc = prog.func("ares_server_create")
+    # counter: the variable stored into server->idx for kept servers in ares_servers_update
+    kept = [el for _, _, el in up.elements() if el["k"] == "asg" and is_field(el["e"]["l"], "idx", "ares_server") and is_var(strip(el["e"].get("r")))]
+    if not r.require(kept, "ares_servers_update: renumbering of kept servers not found"):
+        return
+    ctr = strip(kept[0]["e"]["r"])["n"]
+    incs = [el for _, _, el in up.elements() if el["k"] == "asg" and is_var(strip(el["e"]["l"]), ctr) and el["e"]["op"] in ("++", "+=")]
+    if len(incs) == 1:
+        r.ok("position counter advances once per applied entry", up.loc(incs[0]))
+    else:
+        r.viol("position counter advances once per applied entry", up.name, up.loc(up.ln), "the position counter '%s' is advanced %d times per iteration" % (ctr, len(incs)))
+    cs = up.calls_to("ares_server_create")
+    passed = None
+    for b, i, c in cs:
+        for k, a in enumerate(c.get("args", [])):
+            if is_var(strip(a), ctr):
+                passed = k
+    if passed is None:
+        r.viol("new server is created with its list position", up.name, up.loc(cs[0][2]["ln"] if cs else up.ln), "ares_servers_update does not hand the position counter '%s' to ares_server_create: a server added by a live edit is not ordered by its place in the new configuration" % ctr)
+    else:
+        r.ok("new server is created with its list position", up.loc(cs[0][2]["ln"]))
+        pn = sc.params[passed]["n"] if passed < len(sc.params) else None
+        st = [el for _, _, el in sc.elements() if el["k"] == "asg" and is_field(el["e"]["l"], "idx", "ares_server")]
+        if st and pn and is_var(strip(st[0]["e"].get("r")), pn) and len(st) == 1:
+            r.ok("server->idx = the position handed in", sc.loc(st[0]))
+        else:
+            r.viol("server->idx = the position handed in", sc.name, sc.loc(st[0] if st else sc.ln), "ares_server_create sets server->idx to '%s' instead of the position it was given" % (render(st[0]["e"].get("r")) if st else "?"))
+    # every failure re-arms next_retry_time = now + retry_delay
+    fi = prog.func("server_increment_failures")
+    st = [(b, i, el) for b, i, el in fi.elements() if el["k"] == "asg" and is_field(el["e"]["l"], "next_retry_time", "ares_server")]
+    if not r.require(st, "server_increment_failures: next_retry_time store not found"):
+        return
+    mf = MustFacts(fi, track_calls=False)
+    b, i, el = st[0]
+    extra = [("" if p3 else "!") + render(c3) for c3, p3 in mf.cond_facts_at(b, i) if not (is_var(strip(norm_cmp(c3, p3)[1]), "node"))]
+    if extra:
+        r.viol("every failure re-arms the retry delay", fi.name, fi.loc(el), "next_retry_time is only set when %s: a server that keeps failing is probed again before retry_delay has passed since its latest failure" % extra)
+    elif not (mf.passed_call(b, i, "ares_tvnow") if False else any(c.get("callee") == "timeadd" for _, _, c in fi.calls())):
+        r.viol("every failure re-arms the retry delay", fi.name, fi.loc(el), "next_retry_time no longer computed as now + retry_delay")
+    else:
+        r.ok("every failure re-arms the retry delay", fi.loc(el))
+    inc = [(b2, i2, e2) for b2, i2, e2 in fi.elements() if e2["k"] == "asg" and is_field(e2["e"]["l"], "consec_failures", "ares_server")]
+    if inc:
+        extra = [("" if p3 else "!") + render(c3) for c3, p3 in mf.cond_facts_at(inc[0][0], inc[0][1]) if not (is_var(strip(norm_cmp(c3, p3)[1]), "node"))]
+        if extra:
+            r.viol("every failure is counted", fi.name, fi.loc(inc[0][2]), "consec_failures only incremented when %s" % extra)
+        else:
+            r.ok("every failure is counted", fi.loc(inc[0][2]))
+
+
 def run(prog, R, tier):
     R.assume("the skip list keeps its order given a correct comparator and reinsert calls (C19)")
     r_key(prog, R)
     r_pick(prog, R)
     r_health(prog, R)
     r_probe(prog, R)
+    r_position(prog, R)
+    r_probeflag(prog, R)
